@@ -203,7 +203,7 @@ def run_session(job):
                 # a pause arriving at an arbitrary moment of the run loop
                 time.sleep(rng.choice([0, 0.0005, 0.002, 0.01, 0.03]))
                 # (a step request that arrives while the machine runs freely ends the run like a pause does)
-                stopper = "pause" if rng.random() < 0.75 else rng.choice(["next", "stepIn", "stepOut"])
+                stopper = "pause" if rng.random() < 0.65 else rng.choice(["next", "stepIn", "stepOut"])
                 rp = ses.dap.request(stopper, {"threadId": 1})
                 pause_in_flight = True
                 step_in_flight = stopper != "pause"
@@ -768,7 +768,7 @@ def segment_walk_session(job):
 def main(tier, seed):
     t0 = time.time()
     rng = rng_for(seed, "c19")
-    n = 64 if tier == "quick" else 1200
+    n = 160 if tier == "quick" else 1600
     jobs = []
     for k in range(n):
         kind = ["calibrate", "race", "race", "mixed"][k % 4]
